@@ -22,6 +22,8 @@ func init() {
 }
 
 func runC04(c *Ctx) {
+	c.R.Rule("RS-no-request-time-state", "request handling writes no state that outlives the request (package-level variables, objects built at start-up, constructor variables captured by handlers) declared in the packages implementing this property", 1)
+	runStateless(c, "RS-no-request-time-state", "providers", "pkg/providers", "pkg/middleware.jwtSessionLoader")
 	r := c.R
 	r.Rule("R1-verifier", "idTokenVerifier.Verify ok => go-oidc Verify ok && verifyAudience true; audience verdict only by allowedAudiences membership; closed writer set", 6)
 	r.Rule("R2-oidc-config", "oidc.Config literals: expiry/signature checks never skipped; SkipIssuerCheck only from SkipIssuerVerification", 5)
